@@ -156,6 +156,11 @@ func (sr *simRepl) guard(fn func()) (died bool) {
 func (sr *simRepl) fail(err error) {
 	// replicate() returned an error: runLoop closes the conn, failures++,
 	// and at the top of the next iteration notifies noContact once.
+	if sr.snapBusy != nil && sr.conn != nil {
+		// the snapshot sender blocked reading its response sees the connection die
+		sr.conn.sc.closeRemote()
+		sr.snapBusy = nil
+	}
 	if sr.conn != nil {
 		sr.conn.orphan = true
 		if len(sr.conn.reqs) > 0 {
@@ -175,6 +180,9 @@ func (c *simCluster) stepReplSend(i, j uint64) map[string]interface{} {
 	sr := c.findRepl(i, j)
 	if sr == nil {
 		return skipped("no such replication")
+	}
+	if sr.snapBusy != nil {
+		return skipped("snapshot in flight")
 	}
 	ev := map[string]interface{}{"kind": "replSend", "i": i, "j": j}
 	died := sr.guard(func() {
@@ -558,7 +566,7 @@ func (c *simCluster) sendSnap(sr *simRepl, ev map[string]interface{}) {
 	}
 	data := sc.takeOut()
 	if len(data) == 0 || rpcType(data[0]) != rpcInstallSnap {
-		panic(harnessStuck("installSnap request bytes missing"))
+		panic(harnessStuck(fmt.Sprintf("installSnap request bytes missing: len=%d first=%v closedL=%v closedR=%v", len(data), data[:minInt(len(data), 4)], sc.isClosedL(), sc.closedR)))
 	}
 	req := &installSnapReq{}
 	if err := req.decode(bytes.NewReader(data[1:])); err != nil {
@@ -567,6 +575,7 @@ func (c *simCluster) sendSnap(sr *simRepl, ev map[string]interface{}) {
 	f := &flight{kind: "snap", data: data[1:], term: req.term, snapIdx: req.lastIndex, snapT: req.lastTerm}
 	sr.conn.reqs = append(sr.conn.reqs, f)
 	sr.snapBusy = done
+	sr.mode = "snap"
 	ev["conn"] = sr.conn.id
 	ev["snap"] = map[string]interface{}{"term": f.term, "index": f.snapIdx, "snapTerm": f.snapT, "size": req.size}
 }
@@ -612,3 +621,10 @@ loop:
 }
 
 var _ = time.Now
+
+func minInt(a, b int) int {
+	if a < b {
+		return a
+	}
+	return b
+}
